@@ -68,8 +68,11 @@ def rule_P1(ctx):
             ok, det = key_in_domain(st.slice, holder)
             ctx.ob("P1", holder, f"`{st.value.id}[...]` is keyed by an export name (the key space the marks and the index share)", ok, det,
                    inst=f"{st.value.id}[{norm(st.slice)}]@{norm(holder)[:60]}")
-    if n_sub < 4:
+    if n_sub == 0:
         raise AnalysisError("P1", where(loop), "mark/index accesses not found")
+    stores = [st for st in ast.walk(loop) if isinstance(st, ast.Assign) and isinstance(st.targets[0], ast.Subscript) and norm(st.targets[0].value) == marked]
+    ctx.ob("P1", loop, "both the visited sample and (for pairs) its partner are marked consumed", len(stores) >= 2,
+           "" if len(stores) >= 2 else f"only {len(stores)} store(s) into `{marked}`: a consumed partner is exported a second time as a mono file", inst="two-mark-sites")
     # per-iteration paths
     lp = cfg.loop_of(loop)
     n = 0
